@@ -53,7 +53,7 @@ def rule_drain(ctx):
         oky = isinstance(g, ast.If) and norm(g.test) == "%s is not None" % res and norm(ys[0].value) == res
     ctx.ob("Collocator.collocate_filesets.yield", oky, "%s" % ([norm(y.value) for y in ys]), "every queue element whose result is not None is yielded", node=ys[0] if ys else w, func=f)
     joins = [st for st in f.body if isinstance(st, ast.For) and any(norm(c.func).endswith(".join") for c in calls_in(st))]
-    errs = [st for st in f.body if isinstance(st, ast.While) and "errors.empty()" in norm(st.test)]
+    errs = [st for st in f.body if st is not w and any(isinstance(n_, ast.While) and "errors.empty()" in norm(n_.test) for n_ in ast.walk(st))]
     okj = bool(joins) and bool(errs) and f.body.index(w) < f.body.index(joins[0]) < f.body.index(errs[0])
     ctx.ob("Collocator.collocate_filesets.join", okj, "order: supervision loop, joins (%d), error drain (%d)" % (len(joins), len(errs)), "processes are joined after the loop; the error queue is read after the joins",
            node=joins[0] if joins else f.node, func=f)
@@ -106,10 +106,25 @@ def rule_flush(ctx):
         b = [norm(s) for s in fl[0].body]
         fact = b
         app = [s for s in lp.body if isinstance(s, ast.Expr) and norm(s.value).startswith("cached_data.append(")]
+        if not app:
+            # the out-of-place spellings of the same step: cached_data = cached_data + [x] / [*cached_data, x] / cached_data += [x]
+            for s_ in lp.body:
+                v_ = None
+                if isinstance(s_, ast.Assign) and len(s_.targets) == 1 and norm(s_.targets[0]) == "cached_data":
+                    t_ = str(norm(s_.value)).replace(" ", "")
+                    if t_ in ("cached_data+[%s]" % first_name, "[*cached_data,%s]" % first_name):
+                        v_ = first_name
+                elif isinstance(s_, ast.AugAssign) and isinstance(s_.op, ast.Add) and norm(s_.target) == "cached_data" \
+                        and str(norm(s_.value)).replace(" ", "") == "[%s]" % first_name:
+                    v_ = first_name
+                if v_ is not None:
+                    app = [ast.copy_location(ast.Expr(value=ast.parse("cached_data.append(%s)" % v_, mode="eval").body), s_)]
+                    lp_index = lp.body.index(s_)
+                    break
         sv_idx = [i for i, s_ in enumerate(fl[0].body) if any([norm(a_) for a_ in c_.args[:2]] == ["cached_data", "cached_attributes"] for c_ in calls_in(s_, "_save_and_return"))]
         okf = bool(sv_idx) and "cached_data = []" in b and "cached_attributes = {}" in b \
             and b.index("cached_data = []") > sv_idx[0] and b.index("cached_attributes = {}") > sv_idx[0] \
-            and bool(app) and lp.body.index(app[0]) > lp.body.index(fl[0]) and norm(app[0].value) == "cached_data.append(%s)" % first_name
+            and bool(app) and (lp.body.index(app[0]) if app[0] in lp.body else lp_index) > lp.body.index(fl[0]) and norm(app[0].value) == "cached_data.append(%s)" % first_name
     ctx.ob("Collocator._process_caller.flush_reset", okf, "%s" % fact, "flush(cached) ; cached_data = [] ; cached_attributes = {} ; then append the new element (no double flush, no loss)",
            node=fl[0] if fl else lp, func=f)
     # tail
